@@ -336,6 +336,8 @@ class Interp:
         self.obls = {}          # (block, idx) -> Obligation
         self.ret_states = []
         self.ret_defs = []      # states right after each definition of the return place
+        self.progress = set()   # blocks in which a cursor quantity provably advances / input is consumed
+        self.consumed = {}      # block -> lower bound of bytes removed from a stream buffer (split_to / advance)
         self.call_sites = []    # (block, callee key, state) for lifted preconditions
         self.assume = assume or []   # list of (a, b, c) facts assumed at entry (lifted to callers)
         self.unmodelled = set()
@@ -399,7 +401,9 @@ class Interp:
             def use_place(p, is_def=False):
                 l = p["l"]
                 if is_def and not p.get("p"):
-                    if l not in u:
+                    if l in fv.local_name and l not in d:
+                        u.add(l)        # keep the old value's facts until it is overwritten (progress checks)
+                    elif l not in u:
                         d.add(l)
                 else:
                     if l not in d:
@@ -674,6 +678,12 @@ class Interp:
     def do_assign(self, st, s, b, si, record):
         p, rv = s["p"], s["rv"]
         r = rv["r"]
+        if record and r == "use":
+            # `x = <new>` where the zone proves new >= x + 1 (x is a cursor variable advancing)
+            old_t = self.canon(st, p)
+            src = self.term_of_operand(st, rv["o"])
+            if src and src[0] != "0" and src[0] != old_t and old_t in st.z.terms() and st.z.implies(old_t, src[0], -1):
+                self.progress.add(b)
         tgt_ty = int_type(self.place_ty(p) or "")
         if r == "use":
             o = rv["o"]
@@ -1394,6 +1404,25 @@ def analyse(prog, key, profile="debug"):
     return it
 
 
+def is_consuming(it):
+    """Every path from entry to a return that does not construct an error passes a block in which input is consumed."""
+    fv = it.fv
+    if not it.progress:
+        return False
+    # error exits: blocks that build Err / None for the return place, or call from_residual
+    err_blocks = set()
+    for b in fv.live:
+        for s_ in fv.blocks[b]["s"]:
+            rv = s_.get("rv")
+            if rv and rv["r"] == "agg" and rv.get("k") == "adt" and rv.get("v") in ("Err", "None") and s_["p"]["l"] == 0:
+                err_blocks.add(b)
+        t = fv.blocks[b]["t"]
+        if t["t"] == "call" and any(n.endswith("FromResidual::from_residual") for n in callee_names(t)):
+            err_blocks.add(b)
+    reach = fv.reach(fv.entry, set(it.progress) | err_blocks)
+    return not any(r in reach for r in fv.returns())
+
+
 def summarise(it):
     """Return-value summary of an analysed function: ranges/value sets of `_0` and of its success payload (incl.
     tuple fields), and zone facts over parameter-rooted cursor terms that hold at every successful return."""
@@ -1439,6 +1468,7 @@ def summarise(it):
             if tag is not None:
                 post = facts if post is None else {(a, b, max(c, dict(((x, y), z) for x, y, z in facts).get((a, b), INF))) for a, b, c in post if (a, b) in {(x, y) for x, y, z in facts}}
     out = {"ranges": {k: v for k, v in ranges.items() if not (v[0] == -INF and v[1] == INF and not v[2])}}
+    out["consuming"] = is_consuming(it)
     if post:
         out["post_ok"] = [x for x in post if x[2] != INF]
     return out
@@ -1465,16 +1495,28 @@ def check_panic_freedom(prog, rule, roots, prop, scope_crates=("rustybgp_packet"
         cache = prog._absint_cache = {}
     if not hasattr(prog, "_absint_summaries"):
         prog._absint_summaries = {}
-    for rnd in range(2):
+    dirty, ndirty = set(fns), set()
+    for rnd in range(6):
+        changed = False
         for k in fns:
             if (k, profile, "s", rnd) in cache:
                 continue
+            # after the second round only functions that call something whose summary changed need another look
+            if rnd >= 2 and not (prog.callees(k) & dirty):
+                continue
             try:
                 it0 = analyse(prog, k, profile)
-                prog._absint_summaries[k] = summarise(it0)
+                new = summarise(it0)
+                if prog._absint_summaries.get(k) != new:
+                    changed = True
+                    ndirty.add(k)
+                prog._absint_summaries[k] = new
                 cache[(k, profile, "s", rnd)] = True
             except Exception:
                 pass
+        dirty, ndirty = ndirty, set()
+        if not changed:
+            break
     for k in fns:
         if extra_skip and extra_skip(k):
             continue
@@ -1500,8 +1542,19 @@ def check_panic_freedom(prog, rule, roots, prop, scope_crates=("rustybgp_packet"
                 continue
             rk = (prog.name(k), site)
             if rk in reviewed:
-                rule.ok("%s %s" % (short(prog.name(k)), site), "reviewed: " + reviewed[rk]["reason"])
                 seen_keys.add(rk)
+                # the guards the review relied on must still dominate the site
+                from .cfg import flat_guards as _fg, branches as _brs
+                from .rules.c05 import atom as _atom
+                if "_brs" not in it.__dict__:
+                    it._brs = _brs(it.fv)
+                atoms = [_atom(g, l) for g, l, h in _fg(it.fv, b, it._brs)]
+                miss = [g for g in reviewed[rk].get("guards", []) if not any(re.search(g, a) for a in atoms)]
+                if not miss:
+                    rule.ok("%s %s" % (short(prog.name(k)), site), "reviewed: " + reviewed[rk]["reason"])
+                    continue
+                n_open += 1
+                rule.fail(prog.name(k), site, "possible panic (%s): %s — the reviewed justification needs the guard(s) %s, which no longer dominate the site" % (ob.kind, ob.snippet[:80] or ob.desc, miss), where)
                 continue
             n_open += 1
             rule.fail(prog.name(k), site, "possible panic (%s): %s — not discharged: %s" % (ob.kind, ob.snippet[:100] or ob.desc, ob.by or "no facts"), where)
